@@ -24,12 +24,15 @@ func (tx *Tx) lockKey(key string) *metadata {
 	m, ok := tx.store.metadata.Get(key)
 	tx.store.mu.RUnlock()
 	if ok {
+		verifPoint("hit")
 		m.Lock()
 		m.writeable = true
 		tx.lockedMetas = append(tx.lockedMetas, m)
 		m.count++
+		verifPoint("locked")
 		return m
 	}
+	verifPoint("miss")
 	return m.empty()
 }
 
@@ -38,11 +41,14 @@ func (tx *Tx) rLockKey(key string) *metadata {
 	m, ok := tx.store.metadata.Get(key)
 	tx.store.mu.RUnlock()
 	if ok {
+		verifPoint("hit")
 		m.RLock()
 		tx.lockedMetas = append(tx.lockedMetas, m)
 		m.count++
+		verifPoint("locked")
 		return m
 	}
+	verifPoint("miss")
 	return m.empty()
 }
 
@@ -64,6 +70,7 @@ func (tx *Tx) newKey(m *metadata, key string, newFn func() ds.Value) *metadata {
 }
 
 func (tx *Tx) delKey(key string) {
+	verifPoint("unlink")
 	tx.store.mu.Lock()
 	tx.store.metadata.Delete(key)
 	tx.store.mu.Unlock()
